@@ -1,4 +1,6 @@
-import Gallia.Proofs.Lemmas.ParseConfig
+import Gallia.Proofs.Lemmas.ParseTransport
+import Gallia.Proofs.Lemmas.ParseUnicode
+import Gallia.Gen.C20Tables
 /-!
   C20 — target URIs and range expressions denote exactly what the user wrote.
 
@@ -33,6 +35,80 @@ theorem autoInt_leading_zero_rejected :
     autoIntL ['1', '_', '_', '0'] = none ∧ autoIntL ['_', '1'] = none ∧ autoIntL ['1', '_'] = none ∧
     autoIntL ['0', 'x'] = none ∧ autoIntL ['-', ' ', '1'] = none ∧ autoIntL ([] : Str) = none := by decide
 
+/-! ### the Unicode edge of `int()` -/
+
+/-- `int()` reads a text through `normChar` only: any decimal digit may be replaced by the same digit of another script and
+    any skipped space by another one without changing what is read (accepted or not) -/
+theorem autoInt_unicode (u s : Str) (h : u.map normChar = s.map normChar) : autoIntL u = autoIntL s := autoIntL_congr u s h
+
+/-- every spelling of every integer written with the decimal digits of any script (Arabic-Indic, Devanagari, fullwidth,
+    mathematical ... : `z0` is the script's zero), with any white space `int()` skips (NBSP, U+2028, U+3000 ...) around it -/
+theorem autoInt_spell_script (z0 : Nat) (hz : z0 ∈ decZeros) (sp : Spelling) (h : sp.WF) (z : Int) :
+    autoIntL (toScript z0 (spell sp z)) = some z := by
+  rw [autoIntL_toScript z0 hz]; exact autoIntL_spell sp h z
+
+/-- each decimal digit of each script is read as its value -/
+theorem autoInt_digit_any_script (z0 : Nat) (hz : z0 ∈ decZeros) (d : Nat) (hd : d < 10) :
+    autoIntL [Char.ofNat (z0 + d)] = some (d : Int) := by
+  unfold autoIntL
+  simp only [List.map_cons, List.map_nil, normChar_digit z0 hz d hd]
+  have : ∀ k, k < 10 → autoIntA [Char.ofNat (48 + k)] = some (k : Int) := by decide
+  exact this d hd
+
+example : toScript 0x0660 (spell { base := .hex, wsL := [Char.ofNat 0xA0] } (-31)) =
+    [Char.ofNat 0xA0, '-', Char.ofNat 0x0660, 'x', Char.ofNat 0x0661, 'f'] := by decide +kernel
+
+/-- the exact boundary: whatever `auto_int` accepts consists of ASCII characters, non-ASCII Unicode spaces and Unicode
+    decimal digits only; U+001C..U+001F (spaces for `str.isspace`) are not skipped -/
+theorem autoInt_alphabet (u : Str) (z : Int) (h : autoIntL u = some z) :
+    ∀ c ∈ u, c.toNat < 128 ∨ isUniSpace c = true ∨ (uniDigit c).isSome = true := autoIntL_alphabet h
+
+theorem autoInt_unicode_witnesses :
+    autoIntL [Char.ofNat 0x663] = some 3 ∧ autoIntL [Char.ofNat 0xFF10, 'x', '1'] = some 1 ∧
+    autoIntL ['0', Char.ofNat 0xFF58, '1'] = none ∧ autoIntL [Char.ofNat 0xA0, '7', Char.ofNat 0x2028] = some 7 ∧
+    autoIntL [Char.ofNat 0x1C, '7'] = none ∧ autoIntL [Char.ofNat 0x2212, '1'] = none ∧
+    autoIntL ['0', Char.ofNat 0x661] = none := by decide +kernel
+
+/-- (T) the tables are the live ones: what `str.isspace` accepts, what `int()` skips, the Unicode decimal digits, what
+    pydantic's lax int trims and accepts as digits -/
+theorem unicode_tables_agree :
+    Gen.C20Tables.strSpaces = [9, 10, 11, 12, 13, 28, 29, 30, 31, 32] ++ uniSpaces ∧
+    Gen.C20Tables.intSpaces = [9, 10, 11, 12, 13, 32] ++ uniSpaces ∧
+    Gen.C20Tables.decZeros = decZeros ∧
+    Gen.C20Tables.laxSpaces = [9, 10, 11, 12, 13, 32] ++ uniSpaces ∧
+    Gen.C20Tables.laxDigits = [48, 49, 50, 51, 52, 53, 54, 55, 56, 57] := by decide +kernel
+
+/-- the predicates are these tables -/
+theorem space_predicates (c : Char) :
+    (isWsInt c = true ↔ c.toNat ∈ [9, 10, 11, 12, 13, 32] ++ uniSpaces) ∧
+    (isSpaceStr c = true ↔ c.toNat ∈ [9, 10, 11, 12, 13, 28, 29, 30, 31, 32] ++ uniSpaces) := by
+  have hws : isWs c = true ↔ c.toNat ∈ [9, 10, 11, 12, 13, 32] := by
+    constructor
+    · intro h
+      have := isWs_mem h
+      simp only [List.mem_cons, List.not_mem_nil, or_false] at this
+      rcases this with rfl | rfl | rfl | rfl | rfl | rfl <;> decide
+    · intro h
+      have hc : c = Char.ofNat c.toNat := (Char.ofNat_toNat c).symm
+      simp only [List.mem_cons, List.not_mem_nil, or_false] at h
+      rw [hc]
+      rcases h with e | e | e | e | e | e <;> rw [e] <;> decide
+  have hu : isUniSpace c = true ↔ c.toNat ∈ uniSpaces := by simp [isUniSpace]
+  constructor
+  · simp only [isWsInt, Bool.or_eq_true, hws, hu, List.mem_append]
+  · simp only [isSpaceStr, Bool.or_eq_true, Bool.and_eq_true, decide_eq_true_eq, hws, hu, List.mem_append]
+    constructor
+    · rintro ((h | h) | h)
+      · left; simp only [List.mem_cons, List.not_mem_nil, or_false] at h ⊢; omega
+      · left; simp only [List.mem_cons, List.not_mem_nil, or_false]; omega
+      · right; exact h
+    · rintro (h | h)
+      · simp only [List.mem_cons, List.not_mem_nil, or_false] at h
+        by_cases h28 : 28 ≤ c.toNat ∧ c.toNat ≤ 31
+        · left; right; exact h28
+        · left; left; simp only [List.mem_cons, List.not_mem_nil, or_false]; omega
+      · right; exact h
+
 /-! ## one-dimensional ranges -/
 
 /-- the denotation is strictly increasing -/
@@ -61,6 +137,16 @@ theorem denote_perm (es es' : List Elem) (h : ∀ e, e ∈ es ↔ e ∈ es') : d
     sorted union of its elements -/
 theorem unravel_render (es : SpElems) (h : es.WF) : unravel (render es) = some (denote (elemsOf es)) := by
   unfold unravel; rw [parseElems_render es h]; rfl
+
+/-- the same with the decimal digits of any script -/
+theorem unravel_render_script (z0 : Nat) (hz : z0 ∈ decZeros) (es : SpElems) (h : es.WF) :
+    unravel (toScript z0 (render es)) = some (denote (elemsOf es)) := by
+  rw [unravel_congr _ _ (map_normChar_toScript z0 hz _)]; exact unravel_render es h
+
+/-- `str.isspace()` decides the empty expression: U+001C alone is an empty list, but `1` preceded by U+001C is refused
+    because `int()` does not skip it; NBSP is skipped -/
+example : unravel [Char.ofNat 0x1C] = some [] ∧ unravel [Char.ofNat 0x1C, '1'] = none ∧
+    unravel [Char.ofNat 0xA0, '1', ',', Char.ofNat 0x662, '-', Char.ofNat 0x664] = some [1, 2, 3, 4] := by decide +kernel
 
 example : render [(.range 0x10 0x2f, .range { base := .hex } { base := .hex }), (.one 0x3e, .one { base := .hex, wsL := [' '] })]
     = ['0', 'x', '1', '0', '-', '0', 'x', '2', 'f', ',', ' ', '0', 'x', '3', 'e'] := by decide +kernel
@@ -145,19 +231,144 @@ theorem split_default (h : Str) (hok : HostOK h) (dflt : Option Nat) :
       = some (h, dflt) := by
   rw [hostInfo_netloc h hok none (fun q hq => by cases hq)]; rfl
 
+/-! ## percent-encoding -/
+
+/-- `unquote_to_bytes(quote_from_bytes(bs, safe='')) == bs` for every byte string -/
+theorem unquote_quote (bs : List UInt8) : unquoteB (quoteB bs) = bs := unquoteB_quoteB bs
+
+/-- the same for `quote_plus` (space written as `+`), as `urlencode` / `parse_qs` pair them -/
+theorem unquote_quote_plus (bs : List UInt8) : unquoteB (plusToSpace (quotePlusB bs)) = bs := unquoteB_quotePlusB bs
+
+/-- UTF-8: decoding (with replacement) the encoding of a text gives the text -/
+theorem utf8_roundtrip (s : Str) : utf8Dec (utf8Str s) = s := utf8Dec_utf8Str s
+
+/-- `unquote_plus(quote_plus(s)) == s` for every text: `&`, `=`, `#`, `?`, `%`, `+`, space, control and non-ASCII characters -/
+theorem unquote_quote_text (s : Str) : unquotePlus (quotePlus s) = s := unquotePlus_quotePlus s
+
+/-- what is written never contains a character that means something in a URI -/
+theorem quote_plus_alphabet (s : Str) : ∀ c ∈ quotePlus s, qpChar c = true := quotePlus_chars s
+
+example : quotePlus ['a', ' ', '&', '=', '%', '+', Char.ofNat 0xE9, Char.ofNat 0x1F600, '~'] =
+    "a+%26%3D%25%2B%C3%A9%F0%9F%98%80~".toList := by decide +kernel
+
+/-- ill-formed UTF-8 behind `%` escapes is read as U+FFFD per maximal ill-formed subpart; a `%` without two hex digits stays -/
+example : unquotePlus "%ff%C3%A9%c3+%E2%82%zz%4".toList =
+    [Char.ofNat 0xFFFD, Char.ofNat 0xE9, Char.ofNat 0xFFFD, ' ', Char.ofNat 0xFFFD, '%', 'z', 'z', '%', '4'] := by decide +kernel
+
+/-- (T) the always-safe set is the live one -/
+theorem quote_safe_agrees : Gen.C20Tables.quoteSafe = (List.range 256).filter (fun n => isSafeByte (UInt8.ofNat n)) := by
+  decide +kernel
+
 /-! ## target URIs -/
 
-/-- a URI built from scheme, host, optional port and parameters parses back to exactly these parts -/
+/-- a URI built from scheme, host, optional port and parameters parses back to exactly these parts - for *any* parameter
+    names and values (`ArgsOK`: the names are distinct, as in a `dict`, and no value is blank) -/
 theorem uri_roundtrip (sch h : Str) (p : Option Nat) (args : Args) (hs : SchemeOK sch) (hok : HostOK h)
     (hp : ∀ q, p = some q → q ≤ 65535) (ha : ArgsOK args) :
-    parseUri (fromParts sch h p args) = some ⟨sch, some h, some p, args⟩ :=
+    parseUri (fromParts sch h p args) = some ⟨sch, some h, some p, [], args⟩ :=
   parseUri_fromParts sch h p args hs hok hp ha
 
-/-- `qs_flat` of a written query is the written parameter list (distinct keys, non-blank values) -/
+example : ArgsOK [("a b&=#?%+".toList, "v /~".toList), ([], ['x']), ([Char.ofNat 0xE9], [Char.ofNat 0x1F600])] :=
+  ⟨by decide, by decide⟩
+
+/-- `qs_flat` of a written query is the written parameter list (distinct names, non-blank values) -/
 theorem qsFlat_roundtrip (args : Args) (ha : ArgsOK args) : qsFlat (queryOf args) = args := qsFlat_queryOf args ha
 
-/-- first occurrence of a repeated key wins, blank values are dropped -/
-example : qsFlat ['a', '=', '1', '&', 'a', '=', '2', '&', 'b', '=', '&', 'c'] = [(['a'], ['1'])] := by decide
+/-- exactly what `qs_flat` does with *every* parameter list, repeated names and blank values included: an entry whose
+    value is blank is dropped (`parse_qs` is called with `keep_blank_values=False`), of several entries with one name the
+    first is kept, the order of first appearance is preserved -/
+theorem qsFlat_any (args : Args) : qsFlat (queryOf args) = firstWins (args.filter (fun kv => kv.2 ≠ [])) :=
+  qsFlat_queryOf_any args
+
+/-- `firstWins` keeps, for each name, the first value written for it -/
+theorem firstWins_lookup (args : Args) (k : Str) : lookupS k (firstWins args) = lookupS k args := by
+  induction args with
+  | nil => rfl
+  | cons kv rest ih =>
+    unfold lookupS at ih ⊢
+    simp only [firstWins, List.find?_cons]
+    by_cases hk : kv.1 = k
+    · simp [hk]
+    · simp only [hk, decide_false]
+      rw [find_filter_ne k kv.1 hk]
+      exact ih
+
+/-- the loss, as a witness: a parameter written with a blank value does not come back, a repeated name keeps its first value.
+    Neither is a defect of the property: `from_parts` takes a `dict` (names are distinct) and no transport setting has a blank
+    value (`config_accepts`: every setting is a number or a truth value), so the parameter maps the property quantifies over
+    round-trip (`uri_roundtrip`) -/
+theorem qsFlat_loss_witness :
+    qsFlat (queryOf [(['a'], []), (['b'], ['1']), (['b'], ['2'])]) = [(['b'], ['1'])] ∧
+    parseUri (fromParts ['t', 'c', 'p'] ['h'] none [(['a'], [])]) = some ⟨['t', 'c', 'p'], some ['h'], some none, [], []⟩ := by
+  decide +kernel
+
+/-- first occurrence of a repeated key wins, blank values and pieces without `=` are dropped -/
+example : qsFlat ['a', '=', '1', '&', 'a', '=', '2', '&', 'b', '=', '&', 'c'] = [(['a'], ['1'])] := by decide +kernel
+
+/-! ## unix socket URIs, paths -/
+
+/-- a path as `unix://` URIs carry it: anything but `?`, `#` and the characters `urlsplit` deletes -/
+def PathOK (p : Str) : Prop :=
+  (p = [] ∨ p.head? = some '/') ∧ ∀ c ∈ p, c ≠ '?' ∧ c ≠ '#' ∧ c ≠ '\t' ∧ c ≠ '\r' ∧ c ≠ '\n'
+
+/-- `scheme:///abs/path` (empty host part): no host, no port, exactly the written path, which is not unquoted -/
+theorem unix_path (sch p : Str) (hs : SchemeOK sch) (hp : PathOK p) :
+    parseUri (sch ++ [':', '/', '/'] ++ p) = some ⟨sch, none, some none, p, []⟩ := by
+  have hcolon : ':' ∉ sch := fun hm => schemeCh_ne_colon (hs.chars _ hm) rfl
+  obtain ⟨c, t, hct, hlow⟩ := hs.head
+  have hne : sch ≠ [] := by simp [hct]
+  have hall : sch.all isSchemeChar = true := List.all_eq_true.mpr (fun x hx => schemeCh_isSchemeChar (hs.chars x hx))
+  have hhead : sch.head?.any isAlphaCh = true := by simp [hct, isAlphaCh, hlow]
+  have hform : sch ++ [':', '/', '/'] ++ p = sch ++ ':' :: ('/' :: '/' :: p) := by simp
+  have hkeep : ∀ x ∈ (':' :: '/' :: '/' :: p), x ≠ '\t' ∧ x ≠ '\r' ∧ x ≠ '\n' := by
+    intro x hx
+    simp only [List.mem_cons] at hx
+    rcases hx with rfl | rfl | rfl | hx
+    · decide
+    · decide
+    · decide
+    · exact ⟨(hp.2 x hx).2.2.1, (hp.2 x hx).2.2.2.1, (hp.2 x hx).2.2.2.2⟩
+  have hpath : pathPart p = p := by
+    unfold pathPart
+    apply takeWhile_all
+    intro x hx
+    simp only [ne_eq, decide_eq_true_eq]
+    exact ⟨(hp.2 x hx).1, (hp.2 x hx).2.1⟩
+  have hq : queryPart p = [] := by
+    unfold queryPart
+    rw [dropWhile_all _ p (by
+      intro x hx
+      simp only [ne_eq, decide_eq_true_eq]
+      exact ⟨(hp.2 x hx).1, (hp.2 x hx).2.1⟩)]
+  unfold parseUri
+  rw [hform, cleanUrl_keep sch _ hs hkeep]
+  simp only
+  rw [splitFirst_stop ':' sch _ hcolon]
+  simp only [hne, hall, hhead, Bool.not_true, Bool.false_eq_true, or_self, if_false]
+  have hnl : splitNetloc ('/' :: '/' :: p) = ([], p) := by
+    unfold splitNetloc
+    rcases hp.1 with rfl | hh
+    · rfl
+    · cases p with
+      | nil => rfl
+      | cons a r =>
+        simp only [List.head?_cons, Option.some.injEq] at hh
+        subst hh
+        simp [List.takeWhile, isDelim]
+  rw [hnl]
+  have e1 : hostPortOf [] = (none, some none) := by decide
+  have e2 : qsFlat [] = [] := by decide
+  simp only [hpath, hq, lower_scheme hs, e1, e2]
+
+example : PathOK "/tmp/gallia sock;v=1%20".toList := ⟨Or.inr rfl, by decide⟩
+
+/-- what is *not* expressible: in `unix://tmp/sock` the first segment is the host part and is silently dropped by the unix
+    transports (they connect to `/sock`); a relative path needs the `unix:tmp/sock` form -/
+theorem unix_relative_witness :
+    parseUri "unix://tmp/sock".toList = some ⟨"unix".toList, some "tmp".toList, some none, "/sock".toList, []⟩ ∧
+    parseUri "unix:tmp/sock".toList = some ⟨"unix".toList, none, some none, "tmp/sock".toList, []⟩ ∧
+    parseUri "unix:///a%20b?x=1#f".toList = some ⟨"unix".toList, none, some none, "/a%20b".toList, [(['x'], ['1'])]⟩ := by
+  decide +kernel
 
 /-! ## the transports accept what was written, with the same numbers -/
 
@@ -165,30 +376,250 @@ example : qsFlat ['a', '=', '1', '&', 'a', '=', '2', '&', 'b', '=', '&', 'c'] = 
     the URI built by `from_parts` -/
 theorem config_accepts_doip (h : Str) (hok : HostOK h) (p : Option Nat) (hp : ∀ q, p = some q → q ≤ 65535)
     (s1 : Spelling) (src : Int) (s2 : Spelling) (tgt : Int) (act ver : Option (Spelling × Int))
-    (h1 : s1.UrlSafe) (h2 : s2.UrlSafe) (ha : optOK act) (hv : optOK ver) :
+    (h1 : s1.WF) (h2 : s2.WF) (ha : optOK act) (hv : optOK ver) :
     (parseUri (fromParts ['d', 'o', 'i', 'p'] h p (doipArgs s1 src s2 tgt act ver))).bind (fun u => doipConfig u.args)
       = some ⟨src, tgt, act.map (·.2), ver.map (·.2)⟩ := by
-  rw [parseUri_fromParts _ h p _ ⟨⟨'d', _, rfl, by decide⟩, by decide⟩ hok hp (argsOK_doip s1 src s2 tgt act ver h1 h2 ha hv)]
+  rw [parseUri_fromParts _ h p _ ⟨⟨'d', _, rfl, by decide⟩, by decide⟩ hok hp (argsOK_doip s1 src s2 tgt act ver)]
   exact doipConfig_args s1 src s2 tgt act ver h1 h2 ha hv
 
 /-- HSFZ, as the discoverer writes it (`ack_timeout` in decimal) -/
 theorem config_accepts_hsfz (h : Str) (hok : HostOK h) (p : Option Nat) (hp : ∀ q, p = some q → q ≤ 65535)
-    (s1 : Spelling) (src : Int) (s2 : Spelling) (dst : Int) (ack : Option Nat) (h1 : s1.UrlSafe) (h2 : s2.UrlSafe) :
+    (s1 : Spelling) (src : Int) (s2 : Spelling) (dst : Int) (ack : Option Nat) (h1 : s1.WF) (h2 : s2.WF) :
     (parseUri (fromParts ['h', 's', 'f', 'z'] h p (hsfzArgs s1 src s2 dst ack))).bind (fun u => hsfzConfig u.args)
       = some ⟨src, dst, ack.map (fun n => (n : Int))⟩ := by
-  rw [parseUri_fromParts _ h p _ ⟨⟨'h', _, rfl, by decide⟩, by decide⟩ hok hp (argsOK_hsfz s1 src s2 dst ack h1 h2)]
+  rw [parseUri_fromParts _ h p _ ⟨⟨'h', _, rfl, by decide⟩, by decide⟩ hok hp (argsOK_hsfz s1 src s2 dst ack)]
   exact hsfzConfig_args s1 src s2 dst ack h1 h2
 
 /-- ISO-TP, as the discoverer writes it (booleans as `true` / `false`, optional extended addresses and padding) -/
 theorem config_accepts_isotp (h : Str) (hok : HostOK h) (fd ext : Bool)
     (s1 : Spelling) (src : Int) (s2 : Spelling) (dst : Int) (ea ra tp rp : Option (Spelling × Int))
-    (h1 : s1.UrlSafe) (h2 : s2.UrlSafe) (hea : optOK ea) (hra : optOK ra) (htp : optOK tp) (hrp : optOK rp) :
+    (h1 : s1.WF) (h2 : s2.WF) (hea : optOK ea) (hra : optOK ra) (htp : optOK tp) (hrp : optOK rp) :
     (parseUri (fromParts ['i', 's', 'o', 't', 'p'] h none (isotpArgs fd ext s1 src s2 dst ea ra tp rp))).bind
         (fun u => isotpConfig u.args)
       = some ⟨src, dst, some ext, some fd, none, ea.map (·.2), ra.map (·.2), tp.map (·.2), rp.map (·.2), none⟩ := by
   rw [parseUri_fromParts _ h none _ ⟨⟨'i', _, rfl, by decide⟩, by decide⟩ hok (fun q hq => by cases hq)
-    (argsOK_isotp fd ext s1 src s2 dst ea ra tp rp h1 h2 hea hra htp hrp)]
+    (argsOK_isotp fd ext s1 src s2 dst ea ra tp rp)]
   exact isotpConfig_args fd ext s1 src s2 dst ea ra tp rp h1 h2 hea hra htp hrp
+
+/-! ## every transport of the registry -/
+
+/-- (T) the transports, their `connect()` facts and their config fields are the live ones: `load_transports()`, the AST of each
+    `connect` (calls `check_scheme`, refuses a missing host, default port, uses `.hostname` / `.path` / `.port`), the pydantic
+    model built from `qs_flat` (kind of reader per field, which fields are required) -/
+theorem all_schemes_modelled : Gen.C20Tables.transports.map genRow = transportTable.map modelRow := by decide +kernel
+
+theorem schemes_agree : Gen.C20Tables.schemes = schemeList.map String.ofList := by decide +kernel
+
+/-- every scheme of `TransportScheme` has a transport in the table and vice versa -/
+theorem schemes_have_transports : ∀ s, s ∈ schemeList ↔ ∃ t ∈ transportTable, t.scheme = s := by
+  intro s
+  constructor
+  · intro h
+    have : ∀ s ∈ schemeList, (transportOf s).isSome = true := by decide +kernel
+    have hs := this s h
+    cases ht : transportOf s with
+    | none => simp [ht] at hs
+    | some t =>
+      unfold transportOf at ht
+      exact ⟨t, List.mem_of_find?_eq_some ht, by simpa using List.find?_some ht⟩
+  · rintro ⟨t, ht, rfl⟩
+    exact (schemeOK_table t ht).2
+
+/-- **the settings of every transport**: a URI built by `from_parts` with the transport's scheme, any host and port, and a
+    parameter map that writes each field the way its reader allows - `auto_int` fields in any base / spelling (sign, prefix case,
+    leading zeros, underscores, white space), plain `int` fields in decimal with optional `+` and white space, `bool` fields as
+    any accepted word in any capitalisation - in any order and among any parameters that are not fields (they are ignored), is
+    read back as exactly these numbers / truth values; fields that are left out keep their default -/
+theorem config_accepts (t : Transport) (ht : t ∈ transportTable) (h : Str) (hok : HostOK h) (p : Option Nat)
+    (hp : ∀ q, p = some q → q ≤ 65535) (args : Args) (asg : Str → Option Written) (hw : Writes args t.fields asg) :
+    (parseUri (fromParts t.scheme h p args)).bind (fun u => cfgOf t.fields u.args) =
+      some (t.fields.map fun f => (f.name, (asg f.name).map Written.val)) :=
+  cfg_of_fromParts t ht h hok p hp args asg hw
+
+/-- **and `connect()` goes on with them**: the scheme check passes, the host is the written host, the port is the written port
+    or else the transport's default (13400 for DoIP, 6801 for HSFZ, none for the others) -/
+theorem connect_accepts (t : Transport) (ht : t ∈ transportTable) (h : Str) (hok : HostOK h) (p : Option Nat)
+    (hp : ∀ q, p = some q → q ≤ 65535) (args : Args) (asg : Str → Option Written) (hw : Writes args t.fields asg) :
+    (parseUri (fromParts t.scheme h p args)).map (connectPlan t) =
+      some (.ok ⟨if t.usesHost then some h else none,
+                 if t.usesPort then (match p with | some q => some q | none => t.defaultPort) else none,
+                 if t.usesPath then some [] else none,
+                 t.fields.map fun f => (f.name, (asg f.name).map Written.val)⟩) :=
+  connectPlan_fromParts t ht h hok p hp args asg hw
+
+/-- a plain `int` setting (`ack_timeout`, `frame_txtime`, `tx_dl`) in decimal with optional sign, leading zeros, a `.0…0` suffix and
+    any white space pydantic trims is read as the number written -/
+theorem plain_int_spell (ls : LaxSp) (h : ls.WF) (z : Int) : plainInt (laxText ls z) = some z := plainInt_laxText ls h z
+
+example : laxText { wsL := [Char.ofNat 0xA0], plus := true, zeros := 2, frac := 3, wsR := ['\n'] } 1000 =
+    [Char.ofNat 0xA0, '+', '0', '0', '1', '0', '0', '0', '.', '0', '0', '0', '\n'] := by decide +kernel
+
+/-- what a plain `int` setting does not accept: other bases, exponents, a fraction, inner spaces, U+001C -/
+example : plainInt "0x10".toList = none ∧ plainInt "1e3".toList = none ∧ plainInt "1.5".toList = none ∧
+    plainInt "1 0".toList = none ∧ plainInt [Char.ofNat 0x1C, '1'] = none ∧ plainInt "1_0".toList = some 10 := by decide +kernel
+
+/-- a `bool` setting (`is_fd`, `is_extended`): each accepted word in each capitalisation -/
+theorem bool_spell (wb : Str × Bool) (h : wb ∈ boolWords) (mask : List Bool) : boolVal (caseVar mask wb.1) = some wb.2 :=
+  boolVal_caseVar wb h mask
+
+example : caseVar [true, false, true] ['y', 'e', 's'] = ['Y', 'e', 'S'] ∧ boolVal ['t', 'r', 'u', 'e', ' '] = none ∧
+    boolVal ['2'] = none := by decide +kernel
+
+/-- non-vacuous: a raw-CAN target with `is_fd=TRUE`, `dst_id=  0X_7_ff`, and two parameters that are no fields -/
+def canRawDemo : Args :=
+  [("x y".toList, "1".toList), (kDstId, spell { base := .hex, upper := true, usP := true, us := [true], wsL := [' ', ' '] } 0x7ff),
+   (kIsFd, caseVar [true, true, true, true] ['t', 'r', 'u', 'e']), ([], ['z'])]
+
+def canRawAsg (k : Str) : Option Written :=
+  if k = kDstId then some (.autoInt { base := .hex, upper := true, usP := true, us := [true], wsL := [' ', ' '] } 0x7ff)
+  else if k = kIsFd then some (.bool (['t', 'r', 'u', 'e'], true) [true, true, true, true])
+  else none
+
+example : Writes canRawDemo canRawT.fields canRawAsg := by
+  refine ⟨⟨by decide +kernel, by decide +kernel⟩, by decide, ?_, by decide +kernel⟩
+  intro f hf w hw
+  simp only [canRawT, List.mem_cons, List.not_mem_nil, or_false] at hf
+  rcases hf with rfl | rfl | rfl
+  · simp [canRawAsg, kIsExtended, kDstId, kIsFd] at hw
+  · have : canRawAsg kIsFd = some (.bool (['t', 'r', 'u', 'e'], true) [true, true, true, true]) := by decide +kernel
+    rw [this] at hw; cases hw; exact ⟨rfl, (by decide : ((['t', 'r', 'u', 'e'], true) : Str × Bool) ∈ boolWords)⟩
+  · have : canRawAsg kDstId = some (.autoInt { base := .hex, upper := true, usP := true, us := [true], wsL := [' ', ' '] } 0x7ff) := by
+      decide +kernel
+    rw [this] at hw; cases hw
+    exact ⟨rfl, (by decide : ∀ c ∈ [' ', ' '], isWsInt c = true), (by decide : ∀ c ∈ ([] : Str), isWsInt c = true)⟩
+
+example : fromParts canRawT.scheme "vcan0".toList none canRawDemo = "can-raw://vcan0?x+y=1&dst_id=++0X_7_FF&is_fd=TRUE&=z".toList := by
+  decide +kernel
+
+/-- the same per scheme: one `config_accepts_<scheme>` / `connect_accepts_<scheme>` for each transport of the registry -/
+theorem config_accepts_canraw (h : Str) (hok : HostOK h) (p : Option Nat) (hp : ∀ q, p = some q → q ≤ 65535) (args : Args)
+    (asg : Str → Option Written) (hw : Writes args canRawT.fields asg) :
+    (parseUri (fromParts canRawT.scheme h p args)).bind (fun u => cfgOf canRawT.fields u.args) =
+      some (canRawT.fields.map fun f => (f.name, (asg f.name).map Written.val)) :=
+  config_accepts canRawT (by decide) h hok p hp args asg hw
+
+theorem config_accepts_doip_any (h : Str) (hok : HostOK h) (p : Option Nat) (hp : ∀ q, p = some q → q ≤ 65535) (args : Args)
+    (asg : Str → Option Written) (hw : Writes args doipT.fields asg) :
+    (parseUri (fromParts doipT.scheme h p args)).bind (fun u => cfgOf doipT.fields u.args) =
+      some (doipT.fields.map fun f => (f.name, (asg f.name).map Written.val)) :=
+  config_accepts doipT (by decide) h hok p hp args asg hw
+
+theorem config_accepts_hsfz_any (h : Str) (hok : HostOK h) (p : Option Nat) (hp : ∀ q, p = some q → q ≤ 65535) (args : Args)
+    (asg : Str → Option Written) (hw : Writes args hsfzT.fields asg) :
+    (parseUri (fromParts hsfzT.scheme h p args)).bind (fun u => cfgOf hsfzT.fields u.args) =
+      some (hsfzT.fields.map fun f => (f.name, (asg f.name).map Written.val)) :=
+  config_accepts hsfzT (by decide) h hok p hp args asg hw
+
+theorem config_accepts_isotp_any (h : Str) (hok : HostOK h) (p : Option Nat) (hp : ∀ q, p = some q → q ≤ 65535) (args : Args)
+    (asg : Str → Option Written) (hw : Writes args isotpT.fields asg) :
+    (parseUri (fromParts isotpT.scheme h p args)).bind (fun u => cfgOf isotpT.fields u.args) =
+      some (isotpT.fields.map fun f => (f.name, (asg f.name).map Written.val)) :=
+  config_accepts isotpT (by decide) h hok p hp args asg hw
+
+theorem connect_accepts_tcp (h : Str) (hok : HostOK h) (p : Option Nat) (hp : ∀ q, p = some q → q ≤ 65535) (args : Args)
+    (asg : Str → Option Written) (hw : Writes args tcpT.fields asg) :
+    (parseUri (fromParts tcpT.scheme h p args)).map (connectPlan tcpT) =
+      some (.ok ⟨if tcpT.usesHost then some h else none,
+                 if tcpT.usesPort then (match p with | some q => some q | none => tcpT.defaultPort) else none,
+                 if tcpT.usesPath then some [] else none,
+                 tcpT.fields.map fun f => (f.name, (asg f.name).map Written.val)⟩) :=
+  connect_accepts tcpT (by decide) h hok p hp args asg hw
+
+theorem connect_accepts_tcp_lines (h : Str) (hok : HostOK h) (p : Option Nat) (hp : ∀ q, p = some q → q ≤ 65535) (args : Args)
+    (asg : Str → Option Written) (hw : Writes args tcpLinesT.fields asg) :
+    (parseUri (fromParts tcpLinesT.scheme h p args)).map (connectPlan tcpLinesT) =
+      some (.ok ⟨if tcpLinesT.usesHost then some h else none,
+                 if tcpLinesT.usesPort then (match p with | some q => some q | none => tcpLinesT.defaultPort) else none,
+                 if tcpLinesT.usesPath then some [] else none,
+                 tcpLinesT.fields.map fun f => (f.name, (asg f.name).map Written.val)⟩) :=
+  connect_accepts tcpLinesT (by decide) h hok p hp args asg hw
+
+theorem connect_accepts_unix (h : Str) (hok : HostOK h) (p : Option Nat) (hp : ∀ q, p = some q → q ≤ 65535) (args : Args)
+    (asg : Str → Option Written) (hw : Writes args unixT.fields asg) :
+    (parseUri (fromParts unixT.scheme h p args)).map (connectPlan unixT) =
+      some (.ok ⟨if unixT.usesHost then some h else none,
+                 if unixT.usesPort then (match p with | some q => some q | none => unixT.defaultPort) else none,
+                 if unixT.usesPath then some [] else none,
+                 unixT.fields.map fun f => (f.name, (asg f.name).map Written.val)⟩) :=
+  connect_accepts unixT (by decide) h hok p hp args asg hw
+
+theorem connect_accepts_unix_lines (h : Str) (hok : HostOK h) (p : Option Nat) (hp : ∀ q, p = some q → q ≤ 65535) (args : Args)
+    (asg : Str → Option Written) (hw : Writes args unixLinesT.fields asg) :
+    (parseUri (fromParts unixLinesT.scheme h p args)).map (connectPlan unixLinesT) =
+      some (.ok ⟨if unixLinesT.usesHost then some h else none,
+                 if unixLinesT.usesPort then (match p with | some q => some q | none => unixLinesT.defaultPort) else none,
+                 if unixLinesT.usesPath then some [] else none,
+                 unixLinesT.fields.map fun f => (f.name, (asg f.name).map Written.val)⟩) :=
+  connect_accepts unixLinesT (by decide) h hok p hp args asg hw
+
+theorem connect_accepts_canraw (h : Str) (hok : HostOK h) (p : Option Nat) (hp : ∀ q, p = some q → q ≤ 65535) (args : Args)
+    (asg : Str → Option Written) (hw : Writes args canRawT.fields asg) :
+    (parseUri (fromParts canRawT.scheme h p args)).map (connectPlan canRawT) =
+      some (.ok ⟨if canRawT.usesHost then some h else none,
+                 if canRawT.usesPort then (match p with | some q => some q | none => canRawT.defaultPort) else none,
+                 if canRawT.usesPath then some [] else none,
+                 canRawT.fields.map fun f => (f.name, (asg f.name).map Written.val)⟩) :=
+  connect_accepts canRawT (by decide) h hok p hp args asg hw
+
+theorem connect_accepts_doip (h : Str) (hok : HostOK h) (p : Option Nat) (hp : ∀ q, p = some q → q ≤ 65535) (args : Args)
+    (asg : Str → Option Written) (hw : Writes args doipT.fields asg) :
+    (parseUri (fromParts doipT.scheme h p args)).map (connectPlan doipT) =
+      some (.ok ⟨if doipT.usesHost then some h else none,
+                 if doipT.usesPort then (match p with | some q => some q | none => doipT.defaultPort) else none,
+                 if doipT.usesPath then some [] else none,
+                 doipT.fields.map fun f => (f.name, (asg f.name).map Written.val)⟩) :=
+  connect_accepts doipT (by decide) h hok p hp args asg hw
+
+theorem connect_accepts_hsfz (h : Str) (hok : HostOK h) (p : Option Nat) (hp : ∀ q, p = some q → q ≤ 65535) (args : Args)
+    (asg : Str → Option Written) (hw : Writes args hsfzT.fields asg) :
+    (parseUri (fromParts hsfzT.scheme h p args)).map (connectPlan hsfzT) =
+      some (.ok ⟨if hsfzT.usesHost then some h else none,
+                 if hsfzT.usesPort then (match p with | some q => some q | none => hsfzT.defaultPort) else none,
+                 if hsfzT.usesPath then some [] else none,
+                 hsfzT.fields.map fun f => (f.name, (asg f.name).map Written.val)⟩) :=
+  connect_accepts hsfzT (by decide) h hok p hp args asg hw
+
+theorem connect_accepts_isotp (h : Str) (hok : HostOK h) (p : Option Nat) (hp : ∀ q, p = some q → q ≤ 65535) (args : Args)
+    (asg : Str → Option Written) (hw : Writes args isotpT.fields asg) :
+    (parseUri (fromParts isotpT.scheme h p args)).map (connectPlan isotpT) =
+      some (.ok ⟨if isotpT.usesHost then some h else none,
+                 if isotpT.usesPort then (match p with | some q => some q | none => isotpT.defaultPort) else none,
+                 if isotpT.usesPath then some [] else none,
+                 isotpT.fields.map fun f => (f.name, (asg f.name).map Written.val)⟩) :=
+  connect_accepts isotpT (by decide) h hok p hp args asg hw
+
+/-- a unix transport goes on with exactly the written path -/
+theorem connect_unix_path (t : Transport) (ht : t = unixT ∨ t = unixLinesT) (p : Str) (hp : PathOK p) :
+    (parseUri (t.scheme ++ [':', '/', '/'] ++ p)).map (connectPlan t) = some (.ok ⟨none, none, some p, []⟩) := by
+  have hmem : t ∈ transportTable := by rcases ht with rfl | rfl <;> decide
+  rw [unix_path t.scheme p (schemeOK_of_table hmem) hp]
+  simp only [Option.map_some, connectPlan_path t ht p]
+
+/-- `check_scheme`: a transport that checks refuses every URI of another scheme (an unknown scheme because
+    `TransportScheme(...)` raises, a known one because it differs) -/
+theorem connect_refuses_other_scheme (t : Transport) (hc : t.checksScheme = true) (u : Uri) (h : u.scheme ≠ t.scheme) :
+    connectPlan t u = .error .unknownScheme ∨ connectPlan t u = .error .wrongScheme := by
+  unfold connectPlan checkScheme
+  by_cases hk : u.scheme ∈ schemeList
+  · right; simp [hc, hk, h, bind, Except.bind]
+  · left; simp [hc, hk, bind, Except.bind]
+
+/-- which transports check: all but HSFZ (`HSFZTransport.connect` has no `check_scheme` call), which therefore goes on with a
+    `doip://` URI - the property only speaks about "the transport of that scheme", so this is recorded, not a violation -/
+theorem scheme_check_coverage :
+    (transportTable.filter (fun t => !t.checksScheme)).map (·.scheme) = [hsfzT.scheme] ∧
+    connectPlan hsfzT ⟨"doip".toList, some ['h'], some none, [], [(kSrcAddr, ['1']), (kDstAddr, ['2'])]⟩ =
+      .ok ⟨some ['h'], some 6801, none, [(kSrcAddr, some (.int 1)), (kDstAddr, some (.int 2)), (kAckTimeout, none)]⟩ := by
+  decide +kernel
+
+/-- a missing host, an unreadable port, a missing required field, an unreadable value and a blank required value are refused -/
+theorem connect_refusals :
+    connectPlan doipT ⟨doipT.scheme, none, some none, [], []⟩ = .error .noHost ∧
+    connectPlan doipT ⟨doipT.scheme, some ['h'], none, [], []⟩ = .error .badPort ∧
+    connectPlan doipT ⟨doipT.scheme, some ['h'], some none, [], [(kSrcAddr, ['1'])]⟩ = .error .badConfig ∧
+    connectPlan isotpT ⟨isotpT.scheme, some ['c'], some none, [], [(kSrcAddr, ['1']), (kDstAddr, ['0', '1', '0'])]⟩ = .error .badConfig ∧
+    connectPlan canRawT ⟨canRawT.scheme, some ['c'], some none, [], [(kIsFd, ['t', 'r', 'u', 'e', ' '])]⟩ = .error .badConfig := by
+  decide +kernel
 
 /-- a missing required address or an unreadable number is refused -/
 example : doipConfig [(kSrcAddr, ['1'])] = none ∧ doipConfig [(kSrcAddr, ['1']), (kTargetAddr, ['h', 'a', 'n', 's'])] = none := by
